@@ -29,6 +29,30 @@ use crate::engine;
 use crate::symtext::{cp_len, ByteLike, Cls, LitLike, SymByte, SymStr, Text};
 
 pub const ALNUM_CLS_ID: usize = 7001;
+/// class of the repository's `parse::is_id_char`, tabulated by calling it on every code point
+pub const ID_CHAR_CLS_ID: usize = 7002;
+
+/// The set of characters a pure predicate of the repository accepts, tabulated by calling
+/// the real function on every code point ("precomputed static table").
+pub fn tabulate(id: usize, f: fn(char) -> bool) -> Cls {
+    let mut ranges: Vec<(u32, u32)> = Vec::new();
+    let mut start: Option<u32> = None;
+    for c in 0..=0x10FFFFu32 {
+        let yes = char::from_u32(c).map_or(false, f);
+        match (yes, start) {
+            (true, None) => start = Some(c),
+            (false, Some(s)) => {
+                ranges.push((s, c - 1));
+                start = None;
+            }
+            _ => {}
+        }
+    }
+    if let Some(s) = start {
+        ranges.push((s, 0x10FFFF));
+    }
+    Cls { id, ranges }
+}
 
 std::thread_local! {
     /// group names of the regex under test (for `t_conc`)
@@ -67,6 +91,8 @@ std::thread_local! {
 
 pub trait TChar: Copy + PartialEq<char> + fmt::Display {
     fn from_char(c: char) -> Self;
+    /// a pure predicate of the repository on this character (`cls` = its tabulated class)
+    fn test(self, f: fn(char) -> bool, cls: usize) -> bool;
     fn is_alphanumeric(self) -> bool;
     fn is_ascii_digit(self) -> bool;
 }
@@ -75,6 +101,10 @@ impl TChar for char {
     #[inline]
     fn from_char(c: char) -> char {
         c
+    }
+    #[inline]
+    fn test(self, f: fn(char) -> bool, _cls: usize) -> bool {
+        f(self)
     }
     #[inline]
     fn is_alphanumeric(self) -> bool {
@@ -150,6 +180,12 @@ impl fmt::Display for SymCh {
 impl TChar for SymCh {
     fn from_char(c: char) -> SymCh {
         SymCh::Conc(c)
+    }
+    fn test(self, f: fn(char) -> bool, cls: usize) -> bool {
+        match self {
+            SymCh::Conc(c) => f(c),
+            SymCh::Var(b, w) => engine::decide(alloc::format!("(cls{}_{} {})", cls, w, crate::symtext::cp_term(&b[..w as usize]))),
+        }
     }
     fn is_alphanumeric(self) -> bool {
         match self {
@@ -520,6 +556,44 @@ impl TStr for SymStr {
 }
 
 /// The classes an exploration over templates needs.
-pub fn template_classes() -> Vec<Cls> {
-    alloc::vec![ALNUM.with(|c| c.clone())]
+pub fn template_classes(id_char: fn(char) -> bool) -> Vec<Cls> {
+    ID_CHAR.with(|c| {
+        let mut g = c.borrow_mut();
+        if g.is_none() {
+            *g = Some(tabulate(ID_CHAR_CLS_ID, id_char));
+        }
+    });
+    alloc::vec![ALNUM.with(|c| c.clone()), ID_CHAR.with(|c| c.borrow().clone().unwrap())]
+}
+
+std::thread_local! {
+    static ID_CHAR: RefCell<Option<Cls>> = RefCell::new(None);
+}
+
+/// A pure byte predicate of the repository on a possibly symbolic byte: tabulated over all
+/// 256 values by calling the real function.
+pub fn test_byte<B: ByteLike>(b: B, f: fn(u8) -> bool) -> bool {
+    if let Some(v) = b.concrete() {
+        return f(v);
+    }
+    let mut parts: Vec<String> = Vec::new();
+    let mut v = 0u16;
+    while v < 256 {
+        if f(v as u8) {
+            let lo = v;
+            while v + 1 < 256 && f((v + 1) as u8) {
+                v += 1;
+            }
+            if lo == v {
+                parts.push(alloc::format!("(= {} #x{:02x})", b.term(), lo));
+            } else {
+                parts.push(alloc::format!("(and (bvule #x{:02x} {}) (bvule {} #x{:02x}))", lo, b.term(), b.term(), v));
+            }
+        }
+        v += 1;
+    }
+    if parts.is_empty() {
+        return false;
+    }
+    engine::decide(alloc::format!("(or false {})", parts.join(" ")))
 }
